@@ -103,6 +103,13 @@ func methods(schema *schemabuilder.Schema) {
 		return IPish(make([]byte, id)), present(id)
 	}, func(id int64) IPish { return IPish{1} })
 
+	addMethods(obj, "vtm", "val", func(id int64) (PtrTM, bool) { return PtrTM{V: id}, present(id) }, func(id int64) PtrTM { return PtrTM{V: 1} })
+	addMethods(obj, "pvtm", "ptr", func(id int64) (*PtrTM, bool) {
+		if nonNil(id) {
+			return &PtrTM{V: id}, present(id)
+		}
+		return nil, present(id)
+	}, func(id int64) *PtrTM { return &PtrTM{V: 2} })
 	addMethods(obj, "pi", "ptr", func(id int64) (*int64, bool) {
 		if nonNil(id) {
 			return ptr(id), present(id)
